@@ -101,7 +101,11 @@ def rand_batch(rng):
     pbs = []
     for _ in range(rng.randint(10, 16)):
         seq = "".join(ch if rng.random() > 0.3 else rng.choice("ATGC") for ch in base) if rng.random() < 0.7 else hard.rand_seq(rng, n)
+        if pbs and rng.random() < 0.3:
+            seq = rng.choice(pbs)["sequence"]       # the same sequence under other specifications
         own = [problems.rand_soft(rng, seq, allow=SOFT) for _ in range(rng.randint(0, 2))]
+        if rng.random() < 0.35:
+            own.append(dict(kind="kmers", k=rng.choice([3, 4]), location=None, rc=rng.random() < 0.5))
         if rng.random() < 0.35:
             # codon-table consumers built per problem on the shared table dicts (same seed = same dict object in a process)
             loc = problems.rand_loc(rng, n, codon=True)
@@ -120,6 +124,23 @@ def rand_batch(rng):
                         shared_objectives=[i for i in shared_objs if rng.random() < 0.6], constraints=own, objectives=objs,
                         settings=problems.rand_settings(rng) if rng.random() < 0.5 else {}, np_seed=rng.randint(0, 10 ** 6),
                         ops=rng.choice([["resolve"], ["resolve", "optimize"], ["resolve", "optimize"], ["optimize"]])))
+    if rng.random() < 0.7:
+        # two problems over one sequence that differ only in a rarely used flag of a cached helper: a sequence with a
+        # reverse-complement homology and (most likely) no direct repeat; the first passes untouched, the second must edit
+        k = rng.choice([5, 6])
+        comp = {"A": "T", "T": "A", "G": "C", "C": "G"}
+        w = hard.rand_seq(rng, k)
+        body = list(hard.rand_seq(rng, n))
+        if n >= 2 * k + 2:
+            i = rng.randint(0, n // 2 - k)
+            j = rng.randint(n // 2, n - k)
+            body[i:i + k] = w
+            body[j:j + k] = "".join(comp[c] for c in reversed(w))
+        sq = "".join(body)
+        for rc in (False, True):
+            pbs.insert(rng.randint(0, len(pbs)), dict(sequence=sq, shared_constraints=[], shared_objectives=[],
+                                                      constraints=[dict(kind="kmers", k=k, location=None, rc=rc)], objectives=[],
+                                                      settings={}, np_seed=rng.randint(0, 10 ** 6), ops=["resolve"]))
     return dict(shared=shared, problems=pbs, share_tables=True)
 
 
